@@ -184,16 +184,33 @@ pub struct PanicInfo {
 }
 
 impl PanicInfo {
-    /// Stable class of the panic for signatures: file (without line) + leading message words.
+    /// Stable class of the panic for signatures: source file (without line, independent of where
+    /// the repository copy lives) + leading message words with every run of digits collapsed.
     pub fn class(&self) -> String {
         let file = self.location.split(':').next().unwrap_or("?");
-        let file = file.rsplit("/repo/").next().unwrap_or(file);
-        let msg: String = self
-            .message
-            .chars()
-            .map(|c| if c.is_ascii_digit() { '#' } else { c })
-            .take(60)
-            .collect();
+        let file = if let Some(i) = file.find("/library/") {
+            &file[i + 1..]
+        } else if let Some(i) = file.find("/src/") {
+            &file[i + 1..]
+        } else {
+            file
+        };
+        let mut msg = String::new();
+        let mut in_digits = false;
+        for c in self.message.chars() {
+            if c.is_ascii_digit() {
+                if !in_digits {
+                    msg.push('#');
+                }
+                in_digits = true;
+            } else {
+                in_digits = false;
+                msg.push(c);
+            }
+            if msg.len() >= 60 {
+                break;
+            }
+        }
         format!("{file}:{msg}")
     }
 }
